@@ -113,7 +113,9 @@ impl<'r: 'c, 'c: 'r> Iterator for Iter<'r, 'c> {
     }
 
     fn size_hint(&self) -> (usize, Option<usize>) {
-        let n = self.read_length - (usize::from(self.read_position) - 1);
+        let n = self
+            .read_length
+            .saturating_sub(usize::from(self.read_position) - 1);
         (n, Some(n))
     }
 }
